@@ -40,6 +40,8 @@ theorem updateInflight_fr {g : Bool} (t : S) (fuel idx : Nat) : FrRc g t (t.upda
     · exact ⟨Fr.refl _ _, by rc_ne⟩
     · rename_i m hm
       split
+      · exact ⟨Fr.refl _ _, by rc_ne⟩
+      split
       · split
         · simp only
           generalize hu : sendPublish _ _ _ _ _ _ _ _ _ _ = p
@@ -60,7 +62,7 @@ theorem updateInflight_fr' {g : Bool} {t : S} {f i : Nat} {p : S × RC} (hu : t.
 def dopA (t : S) (mid : Nat) (m : OutMsg) : S :=
   let s := (t.emit (.onPublish mid)).emit (.completed m.info mid)
   let s : S := { s with out := s.out.filter (·.mid ≠ mid) }
-  (s.setInfo m.info (fun x => { x with published := true })).emit (.infoDone m.info ((s.infos[m.info]?.map (·.rc)).getD 0))
+  (s.setInfo m.info (fun _ => { rc := rcSuccess, published := true })).emit (.infoDone m.info rcSuccess)
 
 def dopB (t : S) : S := { t with inflight := t.inflight - 1 }
 
@@ -192,6 +194,8 @@ theorem connackResend_fr {g : Bool} (t : S) (fuel idx : Nat) (rc : RC) (hrc : rc
     split
     · exact ⟨Fr.refl _ _, hrc⟩
     · rename_i m hm
+      split
+      · exact ⟨Fr.refl _ _, by rc_ne⟩
       split
       · generalize hu : loopWrite _ = p
         have h1 := loopWrite_fr' (g := g) hu
@@ -388,7 +392,12 @@ theorem handleConnack_fr {g : Bool} (t : S) (sp : Bool) (result : Nat) (ok : Boo
     · split
       · exact ⟨Fr.refl _ _, by intro r h; injection h with h; subst h; rc_ne⟩
       · have h := reconnect_fr (g := g) { t with proto := 3 } ok
-        exact ⟨Fr.trans (by fr_chain) h.1, h.2⟩
+        split
+        · rename_i s' heq
+          rw [heq] at h
+          exact ⟨Fr.emit_r (Fr.trans (by fr_chain) h.1) (fun _ => rfl),
+            by intro r h; injection h with h; subst h; rc_ne⟩
+        · exact ⟨Fr.trans (by fr_chain) h.1, h.2⟩
     · by_cases h0 : result = 0
       · subst h0
         simp only [if_true]
